@@ -174,9 +174,17 @@ class C10(Engine):
                 if depth < 3:
                     depth += 1
                     vals = {}
-                    for v in rng.sample(pool, rng.choice((1, 2))):
-                        vals[v[0]] = "__MASK__" if rng.random() < 0.3 else self.gen_value(rng, v[1])
-                    ops.append(["enter", vals])
+                    sv_ = [v for v in pool if v[1] == "str"]
+                    if sv_ and rng.random() < 0.3:
+                        # an alias-style overlay scope (string variables only): the most recent overlay wins over everything,
+                        # for xonsh's own reads and for the mapping a child receives alike
+                        for v in rng.sample(sv_, min(len(sv_), rng.choice((1, 2)))):
+                            vals[v[0]] = "__MASK__" if rng.random() < 0.3 else self.gen_value(rng, v[1])
+                        ops.append(["enter", vals, True])
+                    else:
+                        for v in rng.sample(pool, rng.choice((1, 2))):
+                            vals[v[0]] = "__MASK__" if rng.random() < 0.3 else self.gen_value(rng, v[1])
+                        ops.append(["enter", vals])
             elif kind == "exit":
                 if depth > 0:
                     depth -= 1
@@ -272,10 +280,15 @@ class C10(Engine):
                 return {k: tuple(v) for k, v in val.items()}
             return val
 
-        def effective():
+        def effective(overlays=True):
             eff = dict(shadow)
             for sc in scopes:
-                eff.update(sc)
+                if not sc.get("__ov__"):
+                    eff.update(sc)
+            if overlays:
+                for sc in scopes:  # overlays shadow every swapped value, the most recent overlay wins
+                    if sc.get("__ov__"):
+                        eff.update({a: b for a, b in sc.items() if a != "__ov__"})
             return eff
 
         def expect_str(name, val):
@@ -308,7 +321,9 @@ class C10(Engine):
             return procs[-1].env
 
         def judge(child, how, kv=None):
-            eff = effective()
+            # (a command started from inside an alias THREAD inherits the caller's swapped values, not the caller's
+            #  alias overlays - as ProcProxyThread documents)
+            eff = effective(overlays=how != "alias")
             if kv:
                 eff[kv[0]] = kv[1]
                 probes["per_command_overlay"] += 1
@@ -414,6 +429,8 @@ class C10(Engine):
                     pending_held.clear()  # these steps always go through the environment object
                 if kind in ("set", "setstr"):
                     _, name, val = op
+                    if any(sc.get("__ov__") and name in sc for sc in scopes):
+                        continue  # (where an assignment under an overlay of the same name lands is C11's subject)
                     tv = typed(name, val)
                     try:
                         if kind == "setstr":
@@ -511,13 +528,17 @@ class C10(Engine):
                     mutations[0] += 1
                 elif kind == "enter":
                     vals = op[1]
+                    is_ov = len(op) > 2 and op[2]
                     real = {k_: (DELETE_VAR if v_ == "__MASK__" else typed(k_, v_)) for k_, v_ in vals.items()}
                     try:
-                        stack.enter_context(env.swap(real))
+                        stack.enter_context(env.swap(overlay=real) if is_ov else env.swap(real))
                     except Exception as e:  # noqa: BLE001
                         viol("no.exception", f"swap({real}) raised {type(e).__name__}: {e}", exc=type(e).__name__)
                         break
-                    scopes.append(dict(vals))
+                    scopes.append(dict(vals, __ov__=True) if is_ov else dict(vals))
+                    if is_ov:
+                        probes["overlay_scope"] = probes.get("overlay_scope", 0) + 1
+                        probes["nested_overlay_scopes"] = probes.get("nested_overlay_scopes", 0) + int(sum(1 for sc in scopes if sc.get("__ov__")) > 1)
                     touched.update(vals)
                     held.clear()
                     mutations[0] += 1
@@ -607,6 +628,8 @@ class C10(Engine):
                         judge(child, "alias")
                 elif kind == "launch_pipe_kv":
                     _, kname, kval, nst, pos = op
+                    if any(sc.get("__ov__") and kname in sc for sc in scopes):
+                        continue  # (a per-command value under an alias overlay of the same name: precedence is C11's subject)
                     touched.add(kname)
                     src = " | ".join((f"${kname}={kval!r} " if j_ == pos else "") + f"envcmd s{j_}" for j_ in range(nst)) + "\n"
                     n0 = len(simproc.ALL)
@@ -627,6 +650,8 @@ class C10(Engine):
                         if V:
                             break
                 elif kind == "launch_kv":
+                    if any(sc.get("__ov__") and op[1] in sc for sc in scopes):
+                        continue
                     child = launch("kv", (op[1], op[2]))
                     if child is not None:
                         judge(child, "kv", (op[1], op[2]))
